@@ -393,7 +393,9 @@ def gen_addr(r, ip_only, allow6=True):
         return (socket.inet_ntoa(r.choice([bytes(4), b"\xff" * 4, r.randbytes(4), b"\x7f\x00\x00\x01"])), port)
     if k == "v6":
         return (socket.inet_ntop(socket.AF_INET6, r.choice([bytes(16), b"\xff" * 16, r.randbytes(16), bytes(15) + b"\x01"])), port)
-    return (r.choice(["localhost", "tribler.org", "hé.example", "a" * r.choice([1, 63, 255, 300]), "x.y-z_0", ""]), port)
+    # host names incl. ones that merely LOOK numeric (BSD shorthand accepted by inet_aton but not dotted quads)
+    return (r.choice(["localhost", "tribler.org", "hé.example", "a" * r.choice([1, 63, 255, 300]), "x.y-z_0", "",
+                      "1234", "0xbeef", "10.1", "192.168.257", "1.2.3.4.5", "256.1.1.1", "1.2.3", "::g", "1.2.3.4 "]), port)
 
 
 def gen_prim(r, p):
